@@ -106,14 +106,25 @@ func quoteString(s string) string {
 
 func getDescription(raw interface{}) string {
 	var desc string
+	present := false
 
 	switch node := raw.(type) {
 	case ast.DescribableNode:
 		if sval := node.GetDescription(); sval != nil {
 			desc = sval.Value
+			present = true
 		}
 	case map[string]interface{}:
 		desc = getMapValueString(node, "Description.Value")
+		if d, ok := node["Description"]; ok && d != nil {
+			if dm, isMap := d.(map[string]interface{}); !isMap || dm != nil {
+				present = true
+			}
+		}
+	}
+	if desc == "" && present {
+		// an empty description is a description all the same
+		return `""`
 	}
 	if desc != "" {
 		if !blockStringSafe(desc) {
